@@ -1,7 +1,483 @@
-//! C22 — not implemented yet.
-use vmon::report::Args;
+//! C22 — vector search returns the true nearest neighbours when it claims exactness.
+//!
+//! Case = random vector table (FixedSizeList<f32, dim>, dims incl. non-multiples of SIMD widths,
+//! duplicates, zero vectors, integer-valued vectors for ties), metric, optional IVF_FLAT / IVF_PQ
+//! index, history (deletes, appends after indexing, optimize_indices, compaction) and queries
+//! (k in {1, few, > rows}, optional pre-filter). Oracle = brute-force f64 distances over the model.
 
-pub fn run(_args: &Args) -> i32 {
-    eprintln!("HARNESS-ERROR C22 not implemented");
-    2
+use crate::core::*;
+use arrow_array::builder::{FixedSizeListBuilder, Float32Builder};
+use arrow_array::{ArrayRef, Float32Array, Int32Array, Int64Array, RecordBatch};
+use arrow_schema::{DataType, Field, Schema};
+use futures::TryStreamExt;
+use lance::dataset::optimize::{compact_files, CompactionOptions};
+use lance::dataset::{WriteMode, WriteParams};
+use lance::index::vector::VectorIndexParams;
+use lance::Dataset;
+use lance_encoding::version::LanceFileVersion;
+use lance_index::optimize::OptimizeOptions;
+use lance_index::vector::ivf::IvfBuildParams;
+use lance_index::vector::pq::PQBuildParams;
+use lance_index::{DatasetIndexExt, IndexType};
+use lance_linalg::distance::MetricType;
+use serde_json::json;
+use std::collections::{BTreeMap, BTreeSet};
+use std::sync::atomic::{AtomicU64, Ordering as AO};
+use std::sync::Arc;
+use vmon::prng::{fnv_str, Rng};
+use vmon::report::{Args, Report};
+
+#[derive(Clone)]
+struct VRow {
+    vec: Option<Vec<f32>>,
+    y: Option<i32>,
+}
+
+fn true_distance(metric: MetricType, q: &[f32], v: &[f32]) -> f64 {
+    match metric {
+        MetricType::L2 => q.iter().zip(v).map(|(a, b)| (*a as f64 - *b as f64).powi(2)).sum(),
+        MetricType::Dot => 1.0 - q.iter().zip(v).map(|(a, b)| *a as f64 * *b as f64).sum::<f64>(),
+        MetricType::Cosine => {
+            let dot: f64 = q.iter().zip(v).map(|(a, b)| *a as f64 * *b as f64).sum();
+            let nq: f64 = q.iter().map(|a| (*a as f64).powi(2)).sum::<f64>().sqrt();
+            let nv: f64 = v.iter().map(|a| (*a as f64).powi(2)).sum::<f64>().sqrt();
+            1.0 - dot / (nq * nv)
+        }
+        _ => f64::NAN,
+    }
+}
+
+/// tolerance for a distance computed in f32 (any summation order, FMA or not) vs the f64 value
+fn tol(metric: MetricType, q: &[f32], v: &[f32]) -> f64 {
+    let dim = q.len() as f64;
+    let mag: f64 = q.iter().chain(v.iter()).map(|a| (*a as f64).powi(2)).sum::<f64>() + 1.0;
+    match metric {
+        MetricType::Cosine => 4e-6 * dim + 1e-5,
+        _ => 4e-7 * dim * mag + 1e-6,
+    }
+}
+
+fn gen_vec(rng: &mut Rng, dim: usize, style: u64, allow_zero: bool) -> Vec<f32> {
+    match style {
+        // integer-valued small coordinates: many exact ties
+        0 => (0..dim).map(|_| rng.range(-2, 2) as f32).collect(),
+        1 if allow_zero => vec![0.0; dim],
+        _ => (0..dim).map(|_| (rng.f64() * 8.0 - 4.0) as f32).collect(),
+    }
+}
+
+fn make_batch(schema: &Arc<Schema>, dim: usize, rows: &[(i64, VRow)]) -> RecordBatch {
+    let mut vb = FixedSizeListBuilder::new(Float32Builder::new(), dim as i32);
+    for (_, r) in rows {
+        match &r.vec {
+            Some(v) => {
+                for x in v {
+                    vb.values().append_value(*x);
+                }
+                vb.append(true);
+            }
+            None => {
+                for _ in 0..dim {
+                    vb.values().append_value(0.0);
+                }
+                vb.append(false);
+            }
+        }
+    }
+    let ids = Int64Array::from(rows.iter().map(|(i, _)| *i).collect::<Vec<_>>());
+    let ys = Int32Array::from(rows.iter().map(|(_, r)| r.y).collect::<Vec<_>>());
+    let vecs: ArrayRef = Arc::new(vb.finish());
+    // the builder's item field is nullable "item": rebuild with the schema's field
+    let vecs = arrow_cast::cast(&vecs, schema.field(1).data_type()).expect("fsl cast");
+    RecordBatch::try_new(schema.clone(), vec![Arc::new(ids), vecs, Arc::new(ys)]).expect("vector batch")
+}
+
+pub fn run(args: &Args) -> i32 {
+    let selftest = args.extra.contains_key("selftest");
+    let report = Report::new(
+        args,
+        "exploration",
+        "case = (dim, metric, vector table with duplicates / zero vectors / tie-heavy integer vectors / NULL vectors, search mode: flat, IVF_FLAT with nprobes = partitions, IVF_PQ with full refine; history: deletes, appends after indexing, optimize, compaction; query vector, k, optional pre-filter); \
+         oracle = brute-force f64 distances. distinct = hash(dim, metric, mode, history kind, k class, filter); non-trivial = an exact-mode query with more candidates than k (or a selective pre-filter) — the top-k is a strict subset",
+        (75, 900),
+    )
+    .with_min_nontrivial(20);
+    let threads = n_threads();
+    let max_cases: u64 = args.tier.pick(3000, 300_000);
+    let queries_per_state = args.tier.pick(8, 20);
+    let next = AtomicU64::new(0);
+    let only_case: Option<u64> = args.extra.get("case").and_then(|s| s.parse().ok());
+    let st_fired = AtomicU64::new(0);
+    let st_total = AtomicU64::new(0);
+
+    run_threads(threads, |_t, rt| loop {
+        let mut case = next.fetch_add(1, AO::Relaxed);
+        if let Some(c) = only_case {
+            if case > 0 {
+                break;
+            }
+            case = c;
+        }
+        if case >= max_cases || !report.time_left() {
+            break;
+        }
+        let mut rng = Rng::for_case(args.seed, case);
+        rt.block_on(async {
+            let dim = *rng.pick(&[1usize, 2, 3, 4, 7, 8, 16, 17, 33, 100]);
+            let metric = *rng.pick(&[MetricType::L2, MetricType::L2, MetricType::Cosine, MetricType::Dot]);
+            let mode = *rng.pick(&["flat", "flat", "ivf_flat", "ivf_flat", "ivf_pq"]);
+            let n0 = if mode == "ivf_pq" { rng.urange(260, 420) } else { rng.urange(10, args.tier.pick(300, 1200)) };
+            let allow_zero = metric != MetricType::Cosine;
+            let nullable_vec = rng.chance(1, 3);
+            let schema = Arc::new(Schema::new(vec![
+                Field::new("id", DataType::Int64, false),
+                Field::new("vec", DataType::FixedSizeList(Arc::new(Field::new("item", DataType::Float32, true)), dim as i32), nullable_vec),
+                Field::new("y", DataType::Int32, true),
+            ]));
+            let mut next_id = 0i64;
+            let mut model: BTreeMap<i64, VRow> = BTreeMap::new();
+            let tie_heavy = rng.chance(1, 3);
+            let mut gen_rows = |rng: &mut Rng, n: usize, model: &BTreeMap<i64, VRow>, next_id: &mut i64| -> Vec<(i64, VRow)> {
+                let mut out: Vec<(i64, VRow)> = vec![];
+                for _ in 0..n {
+                    let style = if tie_heavy { rng.below(3) } else { 2 + rng.below(20).min(1) * 0 + if rng.chance(1, 20) { 0 } else { 0 } };
+                    let vec = if nullable_vec && rng.chance(1, 12) {
+                        None
+                    } else if rng.chance(1, 8) && (!out.is_empty() || !model.is_empty()) {
+                        // duplicate of an earlier vector
+                        let src: Vec<&VRow> = out.iter().map(|(_, r)| r).chain(model.values()).filter(|r| r.vec.is_some()).collect();
+                        if src.is_empty() { Some(gen_vec(rng, dim, 2, allow_zero)) } else { rng.pick(&src).vec.clone() }
+                    } else if allow_zero && rng.chance(1, 25) {
+                        Some(vec![0.0; dim])
+                    } else {
+                        Some(gen_vec(rng, dim, if tie_heavy { style } else { 2 }, allow_zero))
+                    };
+                    // cosine: no zero vectors (distance undefined, see NOTES)
+                    let vec = match vec {
+                        Some(v) if !allow_zero && v.iter().all(|x| *x == 0.0) => Some(vec![1.0; dim]),
+                        v => v,
+                    };
+                    let y = if rng.chance(1, 6) { None } else { Some(rng.range(0, 9) as i32) };
+                    out.push((*next_id, VRow { vec, y }));
+                    *next_id += 1;
+                }
+                out
+            };
+            let version = *rng.pick(&[LanceFileVersion::V2_0, LanceFileVersion::V2_1]);
+            let nfrag = rng.urange(1, 3);
+            let mut ds: Option<Dataset> = None;
+            for f in 0..nfrag {
+                let rows = gen_rows(&mut rng, (n0 / nfrag).max(1), &model, &mut next_id);
+                let b = make_batch(&schema, dim, &rows);
+                let p = WriteParams { mode: if f == 0 { WriteMode::Create } else { WriteMode::Append }, data_storage_version: Some(version), ..Default::default() };
+                let res = match ds.as_mut() {
+                    None => Dataset::write(reader_of(vec![b]), &unique_uri("c22"), Some(p)).await.map(Some),
+                    Some(d) => d.append(reader_of(vec![b]), Some(p)).await.map(|_| None),
+                };
+                match res {
+                    Ok(Some(d)) => ds = Some(d),
+                    Ok(None) => {}
+                    Err(e) => {
+                        report.harness_error(&format!("case {case}: write: {e}"));
+                        return;
+                    }
+                }
+                for (i, r) in rows {
+                    model.insert(i, r);
+                }
+            }
+            let mut ds = ds.unwrap();
+            // ---- index
+            let mut nparts = 1usize;
+            let mut indexed_ids: BTreeSet<i64> = BTreeSet::new();
+            if mode != "flat" {
+                nparts = *rng.pick(&[1usize, 2, 4]);
+                let params = if mode == "ivf_flat" {
+                    VectorIndexParams::ivf_flat(nparts, metric)
+                } else {
+                    let nsub = if dim % 4 == 0 { dim / 4 } else if dim % 2 == 0 { dim / 2 } else { dim };
+                    VectorIndexParams::with_ivf_pq_params(metric, IvfBuildParams::new(nparts), PQBuildParams::new(nsub.max(1), 8))
+                };
+                match guarded(ds.create_index(&["vec"], IndexType::Vector, Some("vec_idx".into()), &params, true)).await {
+                    Ok(()) => indexed_ids = model.keys().copied().collect(),
+                    Err(e) => {
+                        report.rejected();
+                        report.count("index_creation_rejected", 1);
+                        if report.counter("index_creation_rejected") <= 3 {
+                            report.sample(json!({"index_rejected": format!("{mode} dim={dim} {metric:?} rows={}", model.len()), "error": format!("{e:?}").chars().take(200).collect::<String>()}));
+                        }
+                        return;
+                    }
+                }
+            }
+            report.count("tables", 1);
+            report.count(&format!("mode_{mode}"), 1);
+            let table_desc = format!("dim={dim} metric={metric:?} mode={mode} partitions={nparts} rows={} tie_heavy={tie_heavy} nullable_vec={nullable_vec} v={}", model.len(), storage_version_name(version));
+            let mut history: Vec<String> = vec![];
+            let nstates = rng.urange(1, 3);
+            for state in 0..nstates {
+                if !report.time_left() {
+                    break;
+                }
+                if state > 0 {
+                    match rng.below(4) {
+                        0 => {
+                            let all: Vec<i64> = model.keys().copied().collect();
+                            if all.len() > 4 {
+                                let k = rng.urange(1, all.len() / 3);
+                                let victims: Vec<i64> = rng.sample_indices(all.len(), k).into_iter().map(|i| all[i]).collect();
+                                let list = victims.iter().map(|v| v.to_string()).collect::<Vec<_>>().join(",");
+                                let del = format!("id IN ({list})");
+                                if let Err(e) = guarded_op("delete", ds.delete(&del)).await {
+                                    report.harness_error(&format!("case {case}: {e}"));
+                                    return;
+                                }
+                                for v in victims {
+                                    model.remove(&v);
+                                }
+                                history.push(format!("delete({k})"));
+                            }
+                        }
+                        1 => {
+                            let n = rng.urange(1, 40);
+                            let rows = gen_rows(&mut rng, n, &model, &mut next_id);
+                            let b = make_batch(&schema, dim, &rows);
+                            let p = WriteParams { mode: WriteMode::Append, data_storage_version: Some(version), ..Default::default() };
+                            if let Err(e) = guarded_op("append", ds.append(reader_of(vec![b]), Some(p))).await {
+                                report.harness_error(&format!("case {case}: {e}"));
+                                return;
+                            }
+                            for (i, r) in rows {
+                                model.insert(i, r);
+                            }
+                            history.push(format!("append({n})"));
+                        }
+                        2 if mode != "flat" => {
+                            let o = if rng.bool() { OptimizeOptions::append() } else { OptimizeOptions::merge(10) };
+                            if let Err(e) = guarded_op("optimize_indices", ds.optimize_indices(&o)).await {
+                                report.harness_error(&format!("case {case}: {e}; table {table_desc}; history {history:?}"));
+                                return;
+                            }
+                            indexed_ids = model.keys().copied().collect();
+                            history.push("optimize".into());
+                        }
+                        _ => {
+                            let opts = CompactionOptions { target_rows_per_fragment: 100_000, materialize_deletions_threshold: 0.0, ..Default::default() };
+                            match guarded(compact_files(&mut ds, opts, None)).await {
+                                Ok(m) => history.push(format!("compact(-{}+{})", m.fragments_removed, m.fragments_added)),
+                                Err(e) => {
+                                    report.harness_error(&format!("case {case}: compact: {e:?}"));
+                                    return;
+                                }
+                            }
+                        }
+                    }
+                }
+                let state_kind = history.last().map(|s| s.split('(').next().unwrap().to_string()).unwrap_or_else(|| "fresh".into());
+                let live_vectors = model.values().filter(|r| r.vec.is_some()).count();
+                for qi in 0..queries_per_state {
+                    if !report.time_left() {
+                        break;
+                    }
+                    // query vector
+                    let qv: Vec<f32> = match rng.below(4) {
+                        0 => {
+                            let src: Vec<&VRow> = model.values().filter(|r| r.vec.is_some()).collect();
+                            if src.is_empty() { gen_vec(&mut rng, dim, 2, allow_zero) } else { rng.pick(&src).vec.clone().unwrap() }
+                        }
+                        1 if tie_heavy => gen_vec(&mut rng, dim, 0, allow_zero),
+                        _ => gen_vec(&mut rng, dim, 2, allow_zero),
+                    };
+                    let qv = if !allow_zero && qv.iter().all(|x| *x == 0.0) { vec![1.0; dim] } else { qv };
+                    let k = match rng.below(4) {
+                        0 => 1usize,
+                        1 => live_vectors + 5,
+                        _ => rng.urange(2, 10),
+                    };
+                    let filter: Option<(String, Box<dyn Fn(&VRow) -> bool>)> = match rng.below(5) {
+                        0 => {
+                            let c = rng.range(1, 8) as i32;
+                            Some((format!("y < {c}"), Box::new(move |r: &VRow| r.y.map(|y| y < c).unwrap_or(false))))
+                        }
+                        1 => Some(("y IS NOT NULL".to_string(), Box::new(|r: &VRow| r.y.is_some()))),
+                        _ => None,
+                    };
+                    let fast = mode != "flat" && rng.chance(1, 6);
+                    // exact modes: flat; ivf_flat with all partitions probed; ivf_pq with all partitions probed and a refine factor covering every row
+                    let refine: Option<u32> = if mode == "ivf_pq" { Some(((model.len() + 50) / k.max(1) + 2) as u32) } else { None };
+                    // candidates (fast_search ignores rows appended after indexing)
+                    let cand: Vec<(i64, f64, f64)> = model
+                        .iter()
+                        .filter(|(id, r)| r.vec.is_some() && filter.as_ref().map(|(_, f)| f(r)).unwrap_or(true) && (!fast || indexed_ids.contains(id)))
+                        .map(|(id, r)| {
+                            let v = r.vec.as_ref().unwrap();
+                            (*id, true_distance(metric, &qv, v), tol(metric, &qv, v))
+                        })
+                        .collect();
+                    let expected_n = k.min(cand.len());
+                    let mut sorted: Vec<f64> = cand.iter().map(|c| c.1).collect();
+                    sorted.sort_by(|a, b| a.total_cmp(b));
+                    let kth = if expected_n > 0 { sorted[expected_n - 1] } else { f64::NEG_INFINITY };
+                    // ---- run
+                    let qarr = Float32Array::from(qv.clone());
+                    let res = guarded(async {
+                        let mut s = ds.scan();
+                        s.nearest("vec", &qarr, k)?;
+                        s.distance_metric(metric);
+                        if mode == "flat" {
+                            s.use_index(false);
+                        } else {
+                            s.nprobes(nparts.max(1));
+                            if let Some(r) = refine {
+                                s.refine(r);
+                            }
+                            if fast {
+                                s.fast_search();
+                            }
+                        }
+                        if let Some((f, _)) = &filter {
+                            s.filter(f)?;
+                            s.prefilter(true);
+                        }
+                        s.project(&["id"])?;
+                        let bs: Vec<RecordBatch> = s.try_into_stream().await?.try_collect().await?;
+                        Ok(bs)
+                    })
+                    .await;
+                    let witness = |detail: serde_json::Value| {
+                        json!({"seed": args.seed, "case": case, "state": state, "query_index": qi, "table": table_desc, "history": history, "k": k,
+                               "filter": filter.as_ref().map(|f| f.0.clone()), "fast_search": fast, "refine": refine, "query": trunc(&qv, 8), "detail": detail})
+                    };
+                    let bs = match res {
+                        Ok(b) => b,
+                        Err(ScanErr::Rejected(e)) => {
+                            report.rejected();
+                            if report.counter("rejected_samples") < 2 {
+                                report.count("rejected_samples", 1);
+                                report.sample(json!({"rejected_query": table_desc, "error": e.chars().take(200).collect::<String>()}));
+                            }
+                            report.case(None);
+                            continue;
+                        }
+                        Err(ScanErr::Timeout) => {
+                            report.inconclusive(&format!("case {case}: vector query timed out"));
+                            continue;
+                        }
+                        Err(ScanErr::Failed(e)) => {
+                            if !selftest {
+                                report.violation("vector-search-failed", &e.chars().take(300).collect::<String>(), witness(json!({"error": e})));
+                            }
+                            report.case(None);
+                            continue;
+                        }
+                    };
+                    let mut got: Vec<(i64, f32)> = vec![];
+                    for b in &bs {
+                        let ids = b.column_by_name("id").and_then(|c| c.as_any().downcast_ref::<Int64Array>().cloned());
+                        let ds_ = b.column_by_name("_distance").and_then(|c| c.as_any().downcast_ref::<Float32Array>().cloned());
+                        if let (Some(ids), Some(dd)) = (ids, ds_) {
+                            for i in 0..b.num_rows() {
+                                got.push((ids.value(i), dd.value(i)));
+                            }
+                        }
+                    }
+                    report.count("queries", 1);
+                    report.count("rows_compared", got.len() as u64);
+                    let nontrivial = cand.len() > k || (filter.is_some() && cand.len() < live_vectors && !cand.is_empty());
+                    if selftest {
+                        if nontrivial && !got.is_empty() {
+                            st_total.fetch_add(1, AO::Relaxed);
+                            // corrupt: replace the last hit by the farthest candidate not returned
+                            let returned: BTreeSet<i64> = got.iter().map(|g| g.0).collect();
+                            let far = cand.iter().filter(|c| !returned.contains(&c.0)).max_by(|a, b| a.1.total_cmp(&b.1));
+                            if let Some(far) = far {
+                                let l = got.len() - 1;
+                                got[l] = (far.0, far.1 as f32);
+                                let bad = far.1 > kth + far.2;
+                                if bad {
+                                    st_fired.fetch_add(1, AO::Relaxed);
+                                } else {
+                                    st_total.fetch_sub(1, AO::Relaxed);
+                                }
+                            } else {
+                                st_total.fetch_sub(1, AO::Relaxed);
+                            }
+                        }
+                        report.case(None);
+                        continue;
+                    }
+                    let cmap: BTreeMap<i64, (f64, f64)> = cand.iter().map(|c| (c.0, (c.1, c.2))).collect();
+                    let mut problem: Option<(String, String)> = None;
+                    let mut seen = BTreeSet::new();
+                    for (id, d) in &got {
+                        if !seen.insert(*id) {
+                            problem = Some(("vector-search-duplicate-row".into(), format!("id {id} returned twice")));
+                            break;
+                        }
+                        match model.get(id) {
+                            None => {
+                                problem = Some(("vector-search-returns-deleted-or-unknown-row".into(), format!("id {id} is not a live row")));
+                                break;
+                            }
+                            Some(r) => {
+                                if let Some((fs, f)) = &filter {
+                                    if !f(r) {
+                                        problem = Some(("vector-search-returns-row-failing-prefilter".into(), format!("id {id} does not satisfy `{fs}`")));
+                                        break;
+                                    }
+                                }
+                                if r.vec.is_none() {
+                                    problem = Some(("vector-search-returns-null-vector-row".into(), format!("id {id} has a NULL vector")));
+                                    break;
+                                }
+                            }
+                        }
+                        if let Some((td, t)) = cmap.get(id) {
+                            if ((*d as f64) - td).abs() > *t {
+                                problem = Some(("vector-search-reported-distance-differs-from-recomputation".into(), format!("id {id}: _distance {d} recomputed {td} (tolerance {t:.2e})")));
+                                break;
+                            }
+                            if *td > kth + *t {
+                                problem = Some(("vector-search-result-not-among-k-nearest".into(), format!("id {id} at true distance {td} but the k-th nearest candidate is at {kth}")));
+                                break;
+                            }
+                        } else if fast {
+                            // fast_search may skip unindexed rows but must not invent rows: id is live, just not a candidate of the indexed part
+                            problem = Some(("vector-fast-search-returns-unindexed-row".into(), format!("id {id} was appended after indexing")));
+                            break;
+                        }
+                    }
+                    if problem.is_none() && got.len() != expected_n {
+                        let sig = if !fast && got.len() < expected_n && cand.iter().any(|c| !indexed_ids.contains(&c.0)) && mode != "flat" {
+                            "vector-search-misses-rows-appended-after-indexing-or-returns-too-few"
+                        } else {
+                            "vector-search-wrong-result-count"
+                        };
+                        problem = Some((sig.into(), format!("returned {} rows, expected min(k={k}, candidates={}) = {expected_n}", got.len(), cand.len())));
+                    }
+                    if problem.is_none() && got.windows(2).any(|w| w[0].1 > w[1].1) {
+                        problem = Some(("vector-search-results-not-sorted-by-distance".into(), "distances are not ascending".into()));
+                    }
+                    if let Some((sig, what)) = problem {
+                        report.violation(&sig, &what, witness(json!({"returned": trunc(&got, 12), "expected_count": expected_n, "kth_true_distance": kth})));
+                    }
+                    let kclass = if k == 1 { "1" } else if k > live_vectors { "gt_rows" } else { "few" };
+                    let shape = format!("{dim}|{metric:?}|{mode}|{state_kind}|{kclass}|{}|{fast}", filter.as_ref().map(|f| f.0.split(' ').nth(1).unwrap_or("f")).unwrap_or("-"));
+                    report.case(if nontrivial { Some(fnv_str(&shape)) } else { None });
+                    let pick = rng.chance(1, 60);
+                    if nontrivial && pick && report.want_sample() {
+                        report.sample(json!({"table": table_desc, "history": history, "k": k, "filter": filter.as_ref().map(|f| f.0.clone()), "candidates": cand.len(), "returned": trunc(&got, 5), "kth_true_distance": kth}));
+                    }
+                }
+            }
+        });
+    });
+    if selftest {
+        let (f, t) = (st_fired.load(AO::Relaxed), st_total.load(AO::Relaxed));
+        println!("SELFTEST C22 oracle fired on {f} of {t} corrupted observations");
+        return if t > 0 && f == t { 0 } else { 2 };
+    }
+    report.assume("cosine distance is undefined for zero vectors (0/0): tables and queries under the cosine metric contain no zero vector");
+    report.assume("IVF_PQ is treated as exact only with nprobes = number of partitions and a refine factor that re-ranks every row");
+    report.finish()
 }
